@@ -165,6 +165,7 @@ type Analysis struct {
 	siteObjs   map[regKey]*Obj
 	siteObjs2  map[string]*Obj
 	gs         *genState
+	byteFlows  []byteFlow
 	immediate  []Effect
 	Trace      bool
 	cause      map[[2]int32][2]int32
@@ -923,4 +924,75 @@ func (a *Analysis) ReachableFrom(roots []*Obj) map[*Obj]bool {
 		}
 	}
 	return seen
+}
+
+// byteFlow records that bytes may be copied from what src denotes to what dst denotes.
+// reader==true: src is an io.Reader-like value; the bytes come from whatever it wraps.
+type byteFlow struct {
+	src, dst nodeID
+	reader   bool
+}
+
+// StreamTainted computes the set of array objects that may hold bytes copied from the given
+// seed objects (the caller's input buffers): closure over copy / append / Read-style transfers.
+func (a *Analysis) StreamTainted(seed func(o *Obj) bool) map[*Obj]bool {
+	t := map[*Obj]bool{}
+	for _, o := range a.objs {
+		if seed(o) {
+			t[o] = true
+		}
+	}
+	reachMemo := map[*Obj]map[*Obj]bool{}
+	reach := func(o *Obj) map[*Obj]bool {
+		if r, ok := reachMemo[o]; ok {
+			return r
+		}
+		r := a.ReachableFrom([]*Obj{o})
+		reachMemo[o] = r
+		return r
+	}
+	for changed := true; changed; {
+		changed = false
+		for _, f := range a.byteFlows {
+			hit := false
+			for l := range a.pts[f.src] {
+				o := a.locList[l].Obj
+				if t[o] {
+					hit = true
+					break
+				}
+				if f.reader {
+					for ro := range reach(o) {
+						if t[ro] {
+							hit = true
+							break
+						}
+					}
+				}
+				if hit {
+					break
+				}
+			}
+			if !hit {
+				continue
+			}
+			for l := range a.pts[f.dst] {
+				o := a.locList[l].Obj
+				if !t[o] {
+					t[o] = true
+					changed = true
+				}
+			}
+		}
+	}
+	return t
+}
+
+// ObjectsOf returns the objects a slice/pointer value may refer to in context ctx.
+func (a *Analysis) ObjectsOf(v ssa.Value, ctx Ctx) []*Obj {
+	var out []*Obj
+	for _, l := range a.PointsTo(v, ctx) {
+		out = append(out, l.Obj)
+	}
+	return out
 }
